@@ -16,7 +16,7 @@ class E2:
     def __init__(self, name, harness, sources=(), defines=(), entry='harness', max_paths=100000, max_steps=3_000_000, timeout=300,
                  bounds='', functions=(), stubs=(), assumptions=(), leaks=False, summaries=(), exclude=None, weight=1, validate=3,
                  ref=(), max_depth=120, fork_max=8, all_lib=False, opt=None, openmp=False, expect_paths_min=1, native_replay=True, mem_gb=12,
-                 unconfirmed_ok_kinds=(), stop_distinct=6, uninit_symbolic=False):
+                 unconfirmed_ok_kinds=(), stop_distinct=6, uninit_symbolic=False, fp_precise=False):
         self.name = name; self.harness = harness; self.sources = list(sources); self.defines = list(defines); self.entry = entry
         self.max_paths = max_paths; self.max_steps = max_steps; self.timeout = timeout; self.bounds = bounds
         self.functions = list(functions); self.stubs = list(stubs); self.assumptions = list(assumptions); self.leaks = leaks
@@ -24,6 +24,7 @@ class E2:
         self.openmp = openmp; self.max_depth = max_depth; self.fork_max = fork_max; self.all_lib = all_lib; self.opt = opt
         self.expect_paths_min = expect_paths_min; self.native_replay = native_replay; self.mem_gb = mem_gb
         self.engine = 'E2/symx'; self.stop_distinct = stop_distinct
+        self.fp_precise = fp_precise       # solver logic with IEEE floats (slower); default: fp predicates on symbolic floats are uninterpreted (over-approximation)
         self.uninit_symbolic = uninit_symbolic     # reads of never-written malloc'd bytes are arbitrary; native replay fills malloc'd memory with a poison byte
         if all_lib:
             self.sources = [s for s in LIB_SOURCES if not s.startswith('src/simd/x86/')]
@@ -76,6 +77,7 @@ class E2:
         if self.stop_distinct: cmd += ['--stop-distinct', str(self.stop_distinct)]
         if self.leaks: cmd.append('--leaks')
         if self.uninit_symbolic: cmd.append('--uninit-symbolic')
+        if self.fp_precise: cmd.append('--fp-precise')
         if self.summaries: cmd += ['--summaries', ','.join(self.summaries)]
         rc, out, serr, secs, to = run(cmd, timeout=self.timeout + 30, mem_gb=self.mem_gb)
         if not os.path.exists(outj):
